@@ -294,6 +294,14 @@ func c07CatRun(r *vlib.Run, i int, fl *fleet, rng *rand.Rand) {
 		r.Sample(map[string]interface{}{"servers": len(fl.Servers), "files_per_server": nFiles, "glob": glob, "mode": mode, "pacing": p,
 			"lines": ck.remote, "sources": len(ck.idOf), "switches": ck.switches})
 	}
+	if ck.err == "output does not end with a complete line" && !glob && nFiles > 1 && !res.Panicked() {
+		// several files as a comma list = several commands in one session: the
+		// recorded finding c02.cmd-race lets the client leave while lines of a
+		// later command are still being printed; the cut happens at the very end.
+		if r.Known("c07.cmd-race-tail", "multi-command session: the client exits while a line of a later command is being printed (same root cause as c02.cmd-race)") {
+			return
+		}
+	}
 	if ck.err != "" || res.Panicked() {
 		r.Violation("output-line-invalid", map[string]interface{}{"why": ck.err, "line": ck.errLine, "servers": len(fl.Servers),
 			"files_per_server": nFiles, "glob": glob, "mode": mode, "pacing": p, "exit": res.Exit, "stderr": vlib.Trunc(string(res.Stderr), 1000)})
